@@ -126,15 +126,21 @@ class LocMap:
         offset_apply = not offset is None
 
         # when selecting within one leaf level of a hierarchy (an offset and labels are given), an open start or stop is bounded by that level, not by the full index
-        bounded = offset_apply and labels is not None and (key.step is None or key.step > 0)
+        bounded = offset_apply and labels is not None
+        descending = key.step is not None and key.step < 0
 
         for field in SLICE_ATTRS:
             attr = getattr(key, field)
             if attr is None:
                 if bounded and field == SLICE_START_ATTR:
-                    yield offset
+                    # a descending slice starts at the last position of the level
+                    yield offset + len(labels) - 1 if descending else offset #type: ignore
                 elif bounded and field == SLICE_STOP_ATTR:
-                    yield offset + len(labels) #type: ignore
+                    if descending:
+                        # stop before the first position of the level (None when the level starts the index)
+                        yield offset - 1 if offset else None #type: ignore
+                    else:
+                        yield offset + len(labels) #type: ignore
                 else:
                     yield None
 
